@@ -44,20 +44,119 @@ func (p *testParser) followWord(fval string) *syntax.Word {
 	return w
 }
 
-func (p *testParser) classicTest(fval string, pastAndOr bool) syntax.TestExpr {
+const (
+	testLevelOr = iota
+	testLevelAnd
+	testLevelTerm
+)
+
+func testWord(val string) *syntax.Word {
+	return &syntax.Word{Parts: []syntax.WordPart{
+		&syntax.Lit{Value: val},
+	}}
+}
+
+// testIsUnary and testIsBinary report whether val is an operator taking
+// words as operands, which excludes !, ( and the connectives -a and -o.
+func testIsUnary(val string) bool {
+	switch testUnaryOp(val) {
+	case illegalTok, syntax.TsNot, syntax.TsParen:
+		return false
+	}
+	return true
+}
+
+func testIsBinary(val string) bool {
+	switch testBinaryOp(val) {
+	case illegalTok, syntax.AndTest, syntax.OrTest:
+		return false
+	}
+	return true
+}
+
+// posixTest parses all the arguments of test or [. As POSIX specifies, up to
+// four arguments are interpreted by their number alone, so that operands which
+// look like operators, as in [ "$a" = "$b" ] with a='(' or a='!', are taken as
+// operands. Anything else is parsed by the grammar below.
+func (p *testParser) posixTest(args []string) syntax.TestExpr {
+	two := func(a []string) syntax.TestExpr {
+		switch {
+		case a[0] == "!":
+			return &syntax.UnaryTest{Op: syntax.TsNot, X: testWord(a[1])}
+		case testIsUnary(a[0]):
+			return &syntax.UnaryTest{Op: testUnaryOp(a[0]), X: testWord(a[1])}
+		}
+		return nil
+	}
+	three := func(a []string) syntax.TestExpr {
+		switch {
+		case testBinaryOp(a[1]) != illegalTok:
+			return &syntax.BinaryTest{Op: testBinaryOp(a[1]), X: testWord(a[0]), Y: testWord(a[2])}
+		case a[0] == "!":
+			if x := two(a[1:]); x != nil {
+				return &syntax.UnaryTest{Op: syntax.TsNot, X: x}
+			}
+		case a[0] == "(" && a[2] == ")":
+			return &syntax.ParenTest{X: testWord(a[1])}
+		}
+		return nil
+	}
+	var expr syntax.TestExpr
+	switch len(args) {
+	case 1:
+		expr = testWord(args[0])
+	case 2:
+		expr = two(args)
+	case 3:
+		expr = three(args)
+	case 4:
+		if args[0] == "!" {
+			if x := three(args[1:]); x != nil {
+				expr = &syntax.UnaryTest{Op: syntax.TsNot, X: x}
+			}
+		} else if args[0] == "(" && args[3] == ")" {
+			if x := two(args[1:3]); x != nil {
+				expr = &syntax.ParenTest{X: x}
+			}
+		}
+	}
+	if expr != nil {
+		return expr
+	}
+	p.rem = args
+	p.next()
+	expr = p.classicTest("[", testLevelOr)
+	if !p.eof {
+		p.errf("too many arguments")
+	}
+	return expr
+}
+
+// classicTest parses an expression at one of three precedence levels:
+// -o chains, then -a chains, then single terms.
+func (p *testParser) classicTest(fval string, level int) syntax.TestExpr {
 	var left syntax.TestExpr
-	if pastAndOr {
+	if level == testLevelTerm {
 		left = p.testExprBase(fval)
 	} else {
-		left = p.classicTest(fval, true)
+		left = p.classicTest(fval, level+1)
 	}
 	if left == nil || p.eof || p.val == ")" {
 		return left
 	}
 	opStr := p.val
 	op := testBinaryOp(p.val)
-	if op == illegalTok {
+	switch op {
+	case illegalTok:
 		p.errf("not a valid test operator: %#q", p.val)
+	case syntax.AndTest:
+		if level > testLevelAnd {
+			return left
+		}
+	case syntax.OrTest:
+		if level > testLevelOr {
+			return left
+		}
 	}
 	b := &syntax.BinaryTest{
 		Op: op,
@@ -66,7 +165,7 @@ func (p *testParser) classicTest(fval string, pastAndOr bool) syntax.TestExpr {
 	p.next()
 	switch b.Op {
 	case syntax.AndTest, syntax.OrTest:
-		if b.Y = p.classicTest(opStr, false); b.Y == nil {
+		if b.Y = p.classicTest(opStr, level); b.Y == nil {
 			p.errf("%s must be followed by an expression", opStr)
 		}
 	default:
@@ -79,26 +178,34 @@ func (p *testParser) classicTest(fval string, pastAndOr bool) syntax.TestExpr {
 }
 
 func (p *testParser) testExprBase(fval string) syntax.TestExpr {
-	if p.eof || p.val == ")" {
+	if p.eof {
 		return nil
 	}
 	op := testUnaryOp(p.val)
-	switch op {
-	case syntax.TsNot:
+	switch {
+	case op == syntax.TsNot:
 		u := &syntax.UnaryTest{Op: op}
 		p.next()
-		u.X = p.classicTest(op.String(), false)
+		if u.X = p.classicTest(op.String(), testLevelTerm); u.X == nil {
+			p.errf("%s must be followed by an expression", op.String())
+		}
 		return u
-	case syntax.TsParen:
+	case op == syntax.TsParen:
 		pe := &syntax.ParenTest{}
 		p.next()
-		pe.X = p.classicTest(op.String(), false)
-		if p.val != ")" {
+		if pe.X = p.classicTest(op.String(), testLevelOr); pe.X == nil {
+			p.errf("%s must be followed by an expression", op.String())
+		}
+		if p.eof || p.val != ")" {
 			p.errf("reached %s without matching '(' with ')'", p.val)
 		}
 		p.next()
 		return pe
-	case illegalTok:
+	case len(p.rem) >= 2 && testIsBinary(p.rem[0]):
+		// the left operand of a binary operator, even if it looks like
+		// an operator itself
+		return p.followWord(fval)
+	case op == illegalTok:
 		return p.followWord(fval)
 	default:
 		u := &syntax.UnaryTest{Op: op}
